@@ -266,7 +266,9 @@ func (c *Classifier) Normalize(in []byte) []byte {
 	}
 
 	prevLine := 1
-	buf.WriteString(c.dict.getWord(doc.Tokens[0].ID))
+	if first := c.dict.getWord(doc.Tokens[0].ID); first != eol {
+		buf.WriteString(first)
+	}
 	for _, t := range doc.Tokens[1:] {
 		// Only write out an EOL token that incremented the line
 		if t.Line == prevLine+1 {
